@@ -1127,6 +1127,74 @@ impl Value {
     }
 }
 
+/// A value in transit through a channel. It is owned by the channel itself, not by the
+/// heap of the task that wrote it, so it stays valid after the writer finishes or collects,
+/// and it is fixed at the moment of the write.
+enum Message {
+    Scalar(Value),
+    String(String),
+    Array(Vec<Message>),
+    Struct(Vec<Message>),
+    Variant(u16, Box<Message>),
+    Channel(Arc<Mutex<VecDeque<Message>>>),
+}
+
+impl Value {
+    /// copy this value (and everything it references) out of the heap of `vm`
+    fn to_message(self, vm: &mut VmGreenThread) -> Message {
+        match self.1 {
+            ValueTag::Int | ValueTag::Float | ValueTag::Bool | ValueTag::Addr => {
+                Message::Scalar(self)
+            }
+            ValueTag::Struct => {
+                let fields: Vec<Value> = self.get_struct(vm).get_fields().to_vec();
+                Message::Struct(fields.into_iter().map(|f| f.to_message(vm)).collect())
+            }
+            ValueTag::Array => {
+                let elems: Vec<Value> = self.get_array(vm).data.clone();
+                Message::Array(elems.into_iter().map(|e| e.to_message(vm)).collect())
+            }
+            ValueTag::Variant => {
+                let variant_obj = self.get_variant(vm);
+                let (tag, val) = (variant_obj.tag, variant_obj.val);
+                Message::Variant(tag, Box::new(val.to_message(vm)))
+            }
+            ValueTag::String => Message::String(self.view_string(vm).to_string()),
+            ValueTag::Channel => {
+                let channel_obj = unsafe { self.get_channel(vm) };
+                Message::Channel(channel_obj.data.clone())
+            }
+        }
+    }
+
+    /// materialize a message in the heap of `vm`
+    fn from_message(msg: Message, vm: &mut VmGreenThread) -> Value {
+        match msg {
+            Message::Scalar(v) => v,
+            Message::String(s) => StringObject::new(s, vm).into(),
+            Message::Array(elems) => {
+                let elems = elems
+                    .into_iter()
+                    .map(|e| Value::from_message(e, vm))
+                    .collect();
+                ArrayObject::new(elems, vm).into()
+            }
+            Message::Struct(fields) => {
+                let fields = fields
+                    .into_iter()
+                    .map(|f| Value::from_message(f, vm))
+                    .collect();
+                StructObject::new(fields, vm).into()
+            }
+            Message::Variant(tag, val) => {
+                let val = Value::from_message(*val, vm);
+                EnumObject::new(tag, val, vm).into()
+            }
+            Message::Channel(data) => ChannelObject::new_with_data(vm, data).into(),
+        }
+    }
+}
+
 impl Value {
     fn deep_copy(self, vm: &mut VmGreenThread) -> Value {
         match self.1 {
@@ -1479,7 +1547,7 @@ impl ArrayObject {
 struct ChannelObject {
     header: ObjectHeader,
     // TODO: instead of Arc Mutex VecDeque there's probably something much better
-    data: Arc<Mutex<VecDeque<Value>>>,
+    data: Arc<Mutex<VecDeque<Message>>>,
 }
 
 impl ChannelObject {
@@ -1489,7 +1557,7 @@ impl ChannelObject {
 
     fn new_with_data(
         vm: &mut VmGreenThread,
-        data: Arc<Mutex<VecDeque<Value>>>,
+        data: Arc<Mutex<VecDeque<Message>>>,
     ) -> *mut ChannelObject {
         let header = ObjectHeader {
             kind: ObjectKind::Channel,
@@ -1516,23 +1584,19 @@ impl ChannelObject {
         chan
     }
 
-    fn read_value(&self) -> Option<Value> {
+    fn read_value(&self) -> Option<Message> {
         let mut data = self.data.lock().unwrap();
         // TODO: it would be better to put this thread to sleep instead of constantly trying and failing to read from the channel
         data.pop_front()
     }
 
-    fn write_value(&self, val: Value) {
+    fn write_value(&self, msg: Message) {
         let mut data = self.data.lock().unwrap();
-        data.push_back(val);
+        data.push_back(msg);
     }
 
     fn copy(&self, vm: &mut VmGreenThread) -> Value {
         ChannelObject::new_with_data(vm, self.data.clone()).into()
-    }
-
-    fn header_ptr(&mut self) -> *mut ObjectHeader {
-        self as *mut Self as *mut ObjectHeader
     }
 
     fn nbytes(&self) -> usize {
@@ -2311,8 +2375,8 @@ impl VmGreenThread {
                 let chan_obj = unsafe { chan.get_channel(self) };
                 let read_val = chan_obj.read_value();
                 match read_val {
-                    Some(read_val) => {
-                        let read_val = read_val.deep_copy(self);
+                    Some(msg) => {
+                        let read_val = Value::from_message(msg, self);
                         self.push(read_val)
                     } // TODO: use registers
                     None => {
@@ -2326,9 +2390,9 @@ impl VmGreenThread {
                 let chan = self.pop(); // TODO: use registers
                 let chan = unsafe { chan.get_channel_mut(self) };
 
-                // TODO: write_barrier not necessary
-                self.write_barrier(chan.header_ptr(), val);
-                chan.write_value(val);
+                // the channel owns a copy made now: nothing in this task's heap is shared
+                let msg = val.to_message(self);
+                chan.write_value(msg);
             }
             Instr::ConstructStruct(n) => self.construct_struct(n as usize),
             Instr::ConstructArray(n) => self.construct_array(n as usize),
@@ -2687,11 +2751,8 @@ impl VmGreenThread {
                 }
                 ObjectKind::Channel => {
                     let obj = unsafe { &*(header_ptr as *const ChannelObject) };
+                    // queued messages are owned by the channel, not by any task's heap
                     *batch = batch.saturating_sub(obj.nbytes());
-                    let data = obj.data.lock().unwrap();
-                    for elem in data.iter() {
-                        Self::mark(elem, &mut self.gray_stack, self.gc_visited);
-                    }
                 }
             }
         }
